@@ -132,18 +132,18 @@ class Interp:
                     if isinstance(st.value, ast.Name) and st.value.id in g:
                         g[nm] = g[st.value.id]
                     elif nm not in g:
-                        g[nm] = s._const_expr(st.value, g, nm)
+                        g[nm] = s._const_expr(st.value, g, nm, rel)
             elif isinstance(st, ast.AnnAssign) and isinstance(st.target, ast.Name) and st.value is not None:
                 try:
                     g[st.target.id] = libmodel.const_value(ast.literal_eval(st.value))
                 except Exception:
-                    g[st.target.id] = Opaque(f"module constant {st.target.id}")
+                    g[st.target.id] = s._const_expr(st.value, g, st.target.id, rel)
             elif isinstance(st, ast.Try):
                 s._scan_module(rel, st.body, g)
             elif isinstance(st, ast.If):
                 s._scan_module(rel, st.body, g)
 
-    def _const_expr(s, node, g, nm):
+    def _const_expr(s, node, g, nm, rel=None):
         """module-level constant given by an arithmetic expression over literals and earlier constants (1 << 16, 2 * N_MAX, ...)."""
         if all(isinstance(n, (ast.BinOp, ast.UnaryOp, ast.Constant, ast.Name, ast.operator, ast.unaryop, ast.expr_context)) for n in ast.walk(node)):
             try:
@@ -152,13 +152,22 @@ class Interp:
                 if isinstance(v, X) and v.constval() is not None: return v
             except Exception:
                 pass
-        # a literal table (dict / tuple / list) of constants and module-level functions, e.g. a dispatch table of kernels
-        if isinstance(node, (ast.Dict, ast.Tuple, ast.List)) and all(isinstance(n, (ast.Dict, ast.Tuple, ast.List, ast.Constant, ast.Name, ast.expr_context)) for n in ast.walk(node)) \
-                and all(n.id in g for n in ast.walk(node) if isinstance(n, ast.Name)):
+        # a literal table (dict / tuple / list) of constants, module-level functions and lambdas, e.g. a dispatch table of kernels or of formulas
+        def table_ok(n):
+            if isinstance(n, ast.Dict): return all(k is not None and isinstance(k, ast.Constant) for k in n.keys) and all(table_ok(v) for v in n.values)
+            if isinstance(n, (ast.Tuple, ast.List)): return all(table_ok(e) for e in n.elts)
+            if isinstance(n, ast.Constant): return True
+            if isinstance(n, ast.Name): return n.id in g
+            if isinstance(n, ast.Lambda): return True
+            return False
+        if isinstance(node, (ast.Dict, ast.Tuple, ast.List)) and table_ok(node):
             try:
                 st0 = St(); st0.env.update(g)
+                if rel: st0.fn_key = f"{rel}::<module>"; st0.mod = rel
                 v = s.eval(node, st0)
-                if not is_opaque(v): return v
+                if not is_opaque(v):
+                    _detach_closures(v)
+                    return v
             except Exception:
                 pass
         return Opaque(f"module constant {nm}")
@@ -789,6 +798,17 @@ class Interp:
 
 # ---------------------------------------------------------------------------- helpers
 _GEN_CACHE = {}
+
+
+def _detach_closures(v):
+    """lambdas of a module-level table resolve their free names in the module's globals when called (not in a snapshot taken while scanning)."""
+    if isinstance(v, Func) and v.key.endswith("<module>.<lambda>"): v.closure = {}
+    elif isinstance(v, DictVal):
+        for e in v.d.values(): _detach_closures(e)
+    elif isinstance(v, (tuple, list)):
+        for e in v: _detach_closures(e)
+    elif isinstance(v, ListVal):
+        for e in v.items: _detach_closures(e)
 
 
 def _is_generator(fn):
